@@ -59,10 +59,11 @@ func genSendQ(r *h.Run, i int) *caseT {
 // waits for a token and then succeeds or fails as told.
 type gateConn struct {
 	w        *worker
-	entered  chan int     // write number, sent when a Write has started
-	token    chan error   // one token per Write: nil = succeed
-	writes   atomic.Int64 // writes that returned
-	inWrite  atomic.Int64 // writes in progress
+	entered  chan int      // write number, sent when a Write has started
+	token    chan error    // one token per Write: nil = succeed
+	done     chan struct{} // closed at the end of the case
+	writes   atomic.Int64  // writes that returned
+	inWrite  atomic.Int64  // writes in progress
 	closed   atomic.Bool
 	mu       sync.Mutex
 	received int
@@ -74,7 +75,14 @@ func (g *gateConn) Write(b []byte) (int, error) {
 	n := int(g.writes.Load())
 	g.w.ga.CheckLive(b, "freed-buffer-handed-to-conn-write")
 	g.entered <- n
-	err := <-g.token
+	var err error
+	select {
+	case err = <-g.token:
+	case <-g.done:
+		// the case is over: a write nobody answers any more must not keep its goroutine (and the
+		// quiet loop of this and later cases) waiting
+		err = errors.New("gateConn: case over")
+	}
 	// the bytes are read again after the wait, as a kernel copying them late would
 	g.w.ga.CheckLive(b, "buffer-freed-while-conn-write-in-progress")
 	g.writes.Add(1)
@@ -110,7 +118,8 @@ func (w *worker) runSendQ(c *caseT) {
 	if sc.Compress {
 		u.EnableCompression(true)
 	}
-	g := &gateConn{w: w, entered: make(chan int, 64), token: make(chan error, 64)}
+	g := &gateConn{w: w, entered: make(chan int, 64), token: make(chan error, 64), done: make(chan struct{})}
+	defer close(g.done)
 	var wsc *websocket.Conn
 	if sc.Client {
 		wsc = websocket.NewClientConn(u, g, "", sc.Compress, true)
@@ -135,7 +144,9 @@ func (w *worker) runSendQ(c *caseT) {
 	// left its loop or is parked for good)
 	quiet := func() {
 		stable := 0
-		for i := 0; i < 20000 && stable < 3; i++ {
+		// (a wait of the harness, not a verdict: bounded by time, the sleeps below take a
+		// millisecond each on a loaded machine)
+		for t0 := time.Now(); stable < 3 && time.Since(t0) < 400*time.Millisecond; {
 			if g.inWrite.Load() == 0 && len(g.entered) == 0 {
 				stable++
 			} else {
